@@ -3,5 +3,14 @@ from ._validator_items import items as _items
 
 
 def items(rep):
+    from ..contracts.bootstrap import BootstrapArguments
+    from ..contracts.metricframe import DuplicateFeatureNames
+    from ..pyvc import verify
     rep.trust("numpy/pandas/sklearn shape contracts of vf/contracts/ndmodel.py (assumed; exercised by the bounded stand-ins)")
-    return _items()
+    out = _items()
+    for (a, b) in ((1, 0), (2, 0), (1, 1), (3, 2)):
+        out.append((DuplicateFeatureNames(a, b), [("control_names_not_checked", verify.replace_expr("namelist + self._cf_names", "namelist"))] if (a, b) == (1, 1) else []))
+    for nk in ("none", "int", "float"):
+        for ck in ("none", "one", "int_entry"):
+            out.append((BootstrapArguments(nk, ck), []))
+    return out
